@@ -118,6 +118,12 @@ CHECKS['C04'] = dict(
          'heterocycles and aromatics) are decomposed separately and as A.B / B.A; the mixture must give the descriptor-wise sum, fail exactly when a component fails, and sampled estimates must add. Exploration.',
     note='Trusted: RDKit reading of dot-disconnected SMILES. Fused aromatics excluded (known finding of C02/C03).',
     ref='DESIGN.md C04')
+CHECKS['C09'] = dict(
+    technique='Hypothesis grammar-generated valid texts, every prefix, token mutations, label misuse, unsupported constructs and random text against an outcome-class predicate with a deterministic parser-step bound; junk-suffix metamorphic relation',
+    text='Every input must end as a MolQuery/ReactionQuery, a RINGSyntaxError whose position lies inside the text and whose str() works, a RINGReaderError or NotImplementedError; anything else is a stray exception bucketed by '
+         '(type, innermost pgradd frame). Non-termination is detected by counting ParseState.peek/take calls against 2000+200*len. Accepted text followed by a junk token must not be accepted. Exploration (thorough tier adds an atheris campaign).',
+    note='Trusted: nothing of the parser. The step bound makes "bounded time" deterministic; a SIGALRM backstop only marks runs inconclusive.',
+    ref='DESIGN.md C09')
 NOT_YET = {}
 
 def main():
